@@ -12,8 +12,12 @@ import json
 import math
 from unittest import mock
 
+from twisted.internet import endpoints as tw_endpoints
+from twisted.internet.address import IPv4Address
 from twisted.internet.defer import Deferred
 from twisted.internet.task import Clock, Cooperator
+from twisted.internet.testing import MemoryReactorClock, StringTransport
+from twisted.python.failure import Failure
 from twisted.python import log as txlog
 from zope.interface import alsoProvides
 
@@ -77,11 +81,11 @@ def enc_j(v):
         n, d = v.as_integer_ratio()
         return "d%d/%d" % (n, d)
     if isinstance(v, str):
-        return "s" + hx(v.encode("utf8"))
+        return "s" + hx(v.encode("utf8", "surrogatepass"))
     if isinstance(v, (list, tuple)):
         return "[" + "".join(" " + enc_j(x) for x in v) + " ]"
     if isinstance(v, dict):
-        return "{" + "".join(" k" + hx(k.encode("utf8")) + " " + enc_j(x) for k, x in v.items()) + " }"
+        return "{" + "".join(" k" + hx(k.encode("utf8", "surrogatepass")) + " " + enc_j(x) for k, x in v.items()) + " }"
     raise TypeError(v)
 
 
@@ -116,6 +120,18 @@ def has_nan(v):
     return False
 
 
+def has_surrogate(v):
+    """a lone surrogate (JSON can carry "\\ud800"); Lean strings cannot hold one, so such cases are judged by
+    the oracle on the real code only and are not sent through the model"""
+    if isinstance(v, str):
+        return any(0xD800 <= ord(c) <= 0xDFFF for c in v)
+    if isinstance(v, list):
+        return any(has_surrogate(x) for x in v)
+    if isinstance(v, dict):
+        return any(has_surrogate(k) or has_surrogate(x) for k, x in v.items())
+    return False
+
+
 def wire(v):
     """what the peer's bytes decode to (fresh objects, one shared nan — as json.loads gives)"""
     return json.loads(json.dumps(v))
@@ -126,6 +142,24 @@ def wire(v):
 
 HOSTS = ["192.168.1.5", "10.0.0.7", "10.1.2.3", "::1", "fe80::1", "example.com", "relay.example", "a", "b", "",
          "é.example", "host name", "1.2.3", "1.2.3.4.5"]
+# hostname classes a peer can put into a JSON string (all are `str`, so the hint is rightly dialled):
+ODD_HOSTS = {
+    "idn-ok": ["b\u00fccher.example", "m\u00fcnchen.example", "\u65e5\u672c\u8a9e.example", "xn--bcher-kva.example"],
+    "non-idna": ["m\u00fcnchen..example", "\u00e9" + "x" * 70 + ".example", "\u05d0a.example", "caf\u00e9\ue000.example",
+                 "\u200b.example", "\u00e9..", "\u2488com"],
+    "long-label": ["x" * 64 + ".example", "x" * 70, ("a" * 60 + ".") * 5 + "example"],
+    "empty-label": ["a..b", ".", "..", ".example", "example.", "not a hostname"],
+    "nul": ["a\x00b", "\x00", "\u00e9\x00.example"],
+    "surrogate": ["\ud800", "a\ud800.example", "\udc00\ud800", "\u00e9\udfff"],
+}
+ODD_CLASSES = sorted(ODD_HOSTS)
+
+
+def odd_host(rng, surrogate_ok=True):
+    cls = rng.choice([c for c in ODD_CLASSES if surrogate_ok or c != "surrogate"])
+    return rng.choice(ODD_HOSTS[cls])
+
+
 PORTS = [1, 80, 4001, 65535, 0, -1, 70000, 2 ** 70]
 PRIOS = [0.0, 1.0, 1, 2, -1, 0.5, 3.5, 1e300, 10 ** 30, -0.0, float("inf"), float("-inf")]
 TYPES = ["direct-tcp-v1", "direct-tcp-v1", "tor-tcp-v1"]
@@ -142,6 +176,8 @@ def gen_tcp(rng, small=True):
         h["priority"] = rng.choice(PRIOS[:6] if small else PRIOS)
     if rng.random() < 0.1:
         h["extra"] = rng.choice(ATOMS)
+    if rng.random() < 0.12:
+        h["hostname"] = odd_host(rng, surrogate_ok=rng.random() < 0.3)
     return h
 
 
@@ -259,6 +295,21 @@ CORPUS_HINTS = [
 ]
 
 
+def odd_lists(host):
+    """the odd hostname first (highest priority), valid hints after it; as a direct hint and as a relay sub-hint"""
+    good = {"type": "direct-tcp-v1", "priority": 1.0, "hostname": "192.0.2.7", "port": 4002}
+    good2 = {"type": "direct-tcp-v1", "hostname": "ok.example", "port": 4004}
+    relay = {"type": "relay-v1", "hints": [{"type": "direct-tcp-v1", "priority": 0.0, "hostname": "198.51.100.9", "port": 4003}]}
+    bad = {"type": "direct-tcp-v1", "priority": 5.0, "hostname": host, "port": 4001}
+    badtor = {"type": "tor-tcp-v1", "priority": 5.0, "hostname": host, "port": 4001}
+    return [
+        [bad, good, relay],
+        [bad, relay],
+        [{"type": "relay-v1", "hints": [dict(bad, priority=9), dict(bad, port=4005, priority=0.0)]}, good2, relay],
+        [badtor, bad, {"type": "relay-v1", "hints": [badtor]}, good],
+    ]
+
+
 def _env(rng):
     return dict(tor=rng.random() < 0.3, listener=rng.random() < 0.5, own=rng.random() < 0.4,
                 receiver=rng.random() < 0.5, nolisten=rng.random() < 0.3)
@@ -274,6 +325,17 @@ def cases(rng, tier):
             out.append(dict(kind="transit", tor=tor, listener=False, own=False, receiver=False, adds=[hl, hl]))
             out.append(dict(kind="dilation", tor=tor, nolisten=tor, own=not tor, mgr="CONNECTING", con="connecting",
                             msgs=[{"type": "connection-hints", "hints": hl}]))
+    for cls in ODD_CLASSES:
+        for i, host in enumerate(ODD_HOSTS[cls]):
+            for j, hl in enumerate(odd_lists(host)):
+                if tier == "quick" and i > 1 and j > 1:
+                    continue
+                for tor in ((False, True) if j in (0, 3) else (False,)):
+                    for listener in (False, True):
+                        out.append(dict(kind="transit", tor=tor, listener=listener, own=(j == 1), receiver=(i % 2 == 1), adds=[hl]))
+                    out.append(dict(kind="dilation", tor=tor, nolisten=(j % 2 == 0), own=(j == 1), mgr="CONNECTING", con="connecting",
+                                    msgs=[{"type": "connection-hints", "hints": hl}]))
+            out.append(dict(kind="parse", values=[{"type": "direct-tcp-v1", "hostname": host, "port": 1}]))
     # message shapes outside the quantifier (compared with the model, not judged unless STRICT_MESSAGE_SHAPE)
     for m in [{"type": "connection-hints"}, {"type": "connection-hints", "hints": 5},
               {"type": "connection-hints", "hints": None}, {"type": "connection-hints", "hints": "ab"},
@@ -371,35 +433,49 @@ def judge_targets(viol, where, targets, sources, tor, own):
 # ---------------------------------------------------------------------------
 # recorders
 
-class _EP:
-    def __init__(self, world, kind, host, port):
-        self.world, self.kind, self.host, self.port = world, kind, host, port
+def _recording(world, kind, base):
+    """subclass of the real endpoint class: same behaviour (HostnameEndpoint fails synchronously for a name it
+    cannot IDNA-encode, TCP4/TCP6 call reactor.connectTCP), plus a record of the attempt"""
+    class Recording(base):
+        def __init__(self, reactor, host, port):
+            base.__init__(self, reactor, host, port)
+            self._c20 = (host, port)
 
-    def connect(self, factory):
-        self.world.dials.append((self.world.clock.seconds(), self.kind, self.host, self.port, self.world.phase))
-        return Deferred()
+        def connect(self, factory):
+            d = base.connect(self, factory)
+            host, port = self._c20
+            world.dials.append((world.clock.seconds(), kind, host, port, world.phase))
+            if d.called and isinstance(d.result, Failure):
+                world.sync_failed.append((host, port))
+            return d
+    return Recording
 
 
 class _Tor:
+    """stand-in for the txtorcon object: `stream_via` gives a (real, recording) TCP endpoint; ValueError for
+    hosts starting with '10.' (txtorcon refuses non-public addresses)"""
+
     def __init__(self, world):
         self.world = world
+        self.ep = _recording(world, "tor", tw_endpoints.TCP4ClientEndpoint)
 
     def stream_via(self, host, port, tls=False):
         if host.startswith("10."):
             raise ValueError("non-public address")
-        return _EP(self.world, "tor", host, port)
+        return self.ep(self.world.clock, host, port)
 
 
 class World:
     def __init__(self):
-        self.clock = Clock()
-        self.dials = []
+        self.clock = MemoryReactorClock()       # connectTCP is recorded in .tcpClients and stays pending
+        self.dials = []                         # every endpoint.connect(): (time, kind, host, port, phase)
+        self.sync_failed = []                   # attempts whose Deferred had already failed when connect() returned
         self.phase = "sync"
         self.errors = []
         self._patches = [
-            mock.patch.object(_hints, "TCP4ClientEndpoint", lambda r, h, p: _EP(self, "tcp4", h, p)),
-            mock.patch.object(_hints, "TCP6ClientEndpoint", lambda r, h, p: _EP(self, "tcp6", h, p)),
-            mock.patch.object(_hints, "HostnameEndpoint", lambda r, h, p: _EP(self, "host", h, p)),
+            mock.patch.object(_hints, "TCP4ClientEndpoint", _recording(self, "tcp4", tw_endpoints.TCP4ClientEndpoint)),
+            mock.patch.object(_hints, "TCP6ClientEndpoint", _recording(self, "tcp6", tw_endpoints.TCP6ClientEndpoint)),
+            mock.patch.object(_hints, "HostnameEndpoint", _recording(self, "host", tw_endpoints.HostnameEndpoint)),
         ]
 
     def _observer(self, ev):
@@ -418,14 +494,49 @@ class World:
         for p in self._patches:
             p.stop()
 
-    def run_timers(self, limit):
+    def run_timers(self, steps, delay):
+        """fire the deferLater()s: time 0, then `steps` times one RELAY_DELAY (HostnameEndpoint's LoopingCall runs
+        at most once per step)"""
         self.phase = "timer"
         self.clock.advance(0)
-        for _ in range(200):
-            calls = [c for c in self.clock.getDelayedCalls() if c.getTime() <= limit]
-            if not calls:
-                break
-            self.clock.advance(max(0, min(c.getTime() for c in calls) - self.clock.seconds()))
+        for _ in range(steps):
+            self.clock.advance(delay)
+
+    def pending(self):
+        return [(h, p) for (h, p, _f, _t, _b) in self.clock.tcpClients]
+
+
+def expected_direct(hints, tor):
+    """top-level hints that are valid in every field: these must become connection attempts whatever else is in the list"""
+    out = []
+    if isinstance(hints, list):
+        for h in hints:
+            if not isinstance(h, dict) or h.get("type") not in (("direct-tcp-v1", "tor-tcp-v1") if tor else ("direct-tcp-v1",)):
+                continue
+            host, port = h.get("hostname"), h.get("port")
+            if type(host) is not str or type(port) is not int:
+                continue
+            if "priority" in h and type(h["priority"]) not in (int, float):
+                continue
+            if tor and host.startswith("10."):
+                continue
+            out.append((host, port))
+    return out
+
+
+def play_peer(w, t, key):
+    """be the peer on the most recently started, still pending connection: complete the transit handshake"""
+    host, port, factory, _t, _b = w.clock.tcpClients[-1]
+    proto = factory.buildProtocol(IPv4Address("TCP", "127.0.0.1", 1))
+    proto.makeConnection(StringTransport())
+    inner = getattr(factory, "_wrappedFactory", factory)
+    if getattr(inner, "relay_handshake", None) is not None:
+        proto.dataReceived(b"ok\n")
+    if t.is_sender:
+        proto.dataReceived(transit.build_receiver_handshake(key))
+    else:
+        proto.dataReceived(transit.build_sender_handshake(key) + b"go\n")
+    return host, port
 
 
 def _name(e):
@@ -480,6 +591,9 @@ def run_parse(case):
                     viol.append(("roundtrip-targets", f"parse(encode({r!r})) = {back!r}"))
             except Exception as e:
                 viol.append(("roundtrip-raises", f"encode/parse of {r!r} raised {_name(e)}"))
+    if has_surrogate(case["values"]):
+        lines, exp = [], []
+        tags.append("oracle-only:surrogate")
     return Result(lines, exp, viol, tags, nontrivial=any(isinstance(v, dict) for v in case["values"]))
 
 
@@ -559,13 +673,17 @@ def run_transit(case, force_tor=False):
         lines.append(f"tnew {int(tor)} {int(case['listener'])} {int(case['own'])}")
         exp.append("ok")
         sources = set()
+        must_dial = []
+        add_failed = False
         for hl in case["adds"]:
             v = wire(hl)
             sources |= valid_sources(v, tor)
+            must_dial += expected_direct(v, tor)
             err = None
             try:
                 t.add_connection_hints(v)
             except Exception as e:
+                add_failed = True
                 err = _name(e)
                 if isinstance(v, list):
                     viol.append(("add-hints-raises", f"add_connection_hints({v!r}) raised {err}"))
@@ -584,8 +702,9 @@ def run_transit(case, force_tor=False):
             tags.append("transit:class-conflict->tor")
         w.phase = "sync"
         err = None
+        res = []
         try:
-            t._connect()
+            t._connect().addBoth(res.append)
         except transit.TransitError:
             err = "TransitError"
             if case["listener"]:
@@ -593,7 +712,7 @@ def run_transit(case, force_tor=False):
         except Exception as e:
             err = _name(e)
             viol.append(("connect-raises", f"_connect() raised {err} after hints {case['adds']!r}"))
-        w.run_timers(2 * transit.TIMEOUT - 1)
+        w.run_timers(sum(len(r.hints) for r in t._our_relay_hints) + 2, t.RELAY_DELAY)
         direct = [(h, p) for (tm, k, h, p, ph) in w.dials if ph == "sync"]
         relays = [(int(round(tm / t.RELAY_DELAY)), h, p) for (tm, k, h, p, ph) in w.dials if ph == "timer"]
         for (_tm, k, _h, _p, _ph) in w.dials:
@@ -612,8 +731,33 @@ def run_transit(case, force_tor=False):
             tags.append("connect:" + err)
         judge_targets(viol, "transit", [(h, p, False) for h, p in direct] + [(h, p, True) for _, h, p in relays],
                       sources, tor, case["own"])
+        # ---- "never aborts the transfer; later valid hints are still dialled and can still win" on the real call chain
+        if w.sync_failed:
+            tags.append("attempt-failed-synchronously")
+        if err is None:
+            attempted = {(h, p) for (_tm, _k, h, p, _ph) in w.dials}
+            if not add_failed:
+                for hp in must_dial:
+                    if hp not in attempted:
+                        viol.append(("valid-hint-not-dialled", f"transit: valid direct hint {hp!r} never became a connection "
+                                                               f"attempt (hints {case['adds']!r})"))
+            pending = w.pending()
+            if res and pending:
+                viol.append(("transfer-aborted-by-hint", f"connect() finished with {res[0]!r} while attempts to {pending!r} were "
+                                                         f"still pending (hints {case['adds']!r}, synchronously failed: {w.sync_failed!r})"))
+            elif pending:
+                who = play_peer(w, t, b"\x00" * 32)
+                tags.append("winner-played")
+                if not res or not isinstance(res[0], transit.Connection):
+                    viol.append(("valid-hint-cannot-win", f"peer completed the handshake on {who!r} but connect() gave "
+                                                          f"{(res[0] if res else 'nothing')!r} (hints {case['adds']!r})"))
+            elif not res and not case["listener"]:
+                viol.append(("connect-never-finishes", "no attempt pending, no listener, and connect() has not fired"))
         for e in w.errors:
             tags.append("logged:" + e)
+    if has_surrogate(case["adds"]):
+        lines, exp = [], []           # not representable in the model's strings: oracle only
+        tags.append("oracle-only:surrogate")
     return Result(lines, exp, viol, tags, nontrivial=bool(w.dials) or bool(t._their_direct_hints) or len(t._our_relay_hints) > 0)
 
 
@@ -668,12 +812,15 @@ def run_dilation(case):
         lines.append(f"dnew {int(tor)} {int(case['nolisten'])} {int(case['own'] and case['mgr'] != 'WANTING')} {case['mgr']} {con}")
         exp.append("sched=[" + ",".join(show_sched(s) for s in sched) + "]")
         sources = set()
+        must_dial = []
         dead = False
         for msg in case["msgs"]:
             v = wire(msg)
             in_scope = isinstance(v.get("hints"), list)
             if in_scope:
                 sources |= valid_sources(v["hints"], tor)
+                if case["mgr"] == "CONNECTING" and con == "connecting":
+                    must_dial += expected_direct(v["hints"], tor)
             before = len(sched)
             err = None
             try:
@@ -698,7 +845,12 @@ def run_dilation(case):
                 dead = True
                 break
         if not dead:
-            w.run_timers(10.0)
+            w.run_timers(2, dconn.Connector.RELAY_DELAY)
+            attempted = {(h, p) for (_tm, _k, h, p, _ph) in w.dials}
+            for hp in must_dial:
+                if hp not in attempted:
+                    viol.append(("valid-hint-not-dialled", f"dilation: valid direct hint {hp!r} never became a connection "
+                                                           f"attempt (messages {case['msgs']!r})"))
             d0 = [(tm, h, p) for (tm, k, h, p, ph) in w.dials]
             if nan:
                 lines.append("ddialU")
@@ -716,6 +868,11 @@ def run_dilation(case):
             tags.append("logged:" + e)
         if any(not has for (_d, _r, _h, has) in sched):
             tags.append("scheduled-without-endpoint")
+        if w.sync_failed:
+            tags.append("attempt-failed-synchronously")
+    if has_surrogate(case["msgs"]):
+        lines, exp = [], []
+        tags.append("oracle-only:surrogate")
     return Result(lines, exp, viol, tags, nontrivial=bool(sched))
 
 
